@@ -2,7 +2,7 @@
 META = {
     "level": "exploration",
     "technique": "runtime monitoring of the real web API on an in-process grid: byte-level before/after snapshots of every mutable share file on every server around each modifying request made with read-only authority, plus a write-secret scan of every response obtained with read-only authority",
-    "text": "Builds random directory trees with mixed authority (SDMF/MDMF directories and files, CHK/LIT files, immutable directories; children linked read-write and read-only, the same object reachable both ways) through a real client, mounts the real web API and issues every modifying form of web/directory.py and web/filenode.py (PUT file/?t=uri/?t=mkdir, POST t=mkdir/mkdir-with-children/mkdir-immutable/upload/uri/unlink/delete/rename/relink/set_children, replace=..., offset=, DELETE, intermediate-directory creation, relink INTO a read-only directory) (a) with a read-only dircap, read-only filecap, verify-cap or immutable dircap as the URL's capability and (b) through paths of a writeable root that cross a read-only directory entry. Oracle: every mutable share file that existed before the request and is not write-derivable from the capabilities the requester presented must be byte-identical afterwards (share data and header always; lease area too unless add-lease was asked for) and the response must be 4xx/5xx. Every response obtained with read-only authority (t=json, t=info, HTML listing, t=uri, t=readonly-uri, rename-form, manifests, deep-stats/size, check results, error pages) is searched for the base32 write key of every mutable object the harness created (excluding secrets the request itself supplied). Each modifying form is also issued with a write cap on a twin directory/file and must change the grid there, so the workload is not vacuous; a form is judged for its status only after it has been shown effective.",
+    "text": "Builds random directory trees with mixed authority (SDMF/MDMF directories and files, CHK/LIT files, immutable directories; children linked read-write and read-only, the same object reachable both ways) through a real client, mounts the real web API and issues every modifying form of web/directory.py and web/filenode.py (PUT file/?t=uri/?t=mkdir, POST t=mkdir/mkdir-with-children/mkdir-immutable/upload/uri/unlink/delete/rename/relink/set_children, replace=..., offset=, DELETE, intermediate-directory creation, relink INTO a read-only directory) (a) with a read-only dircap, read-only filecap, verify-cap or immutable dircap as the URL's capability and (b) through paths of a writeable root that cross a read-only directory entry. Oracle: every mutable share file that existed before the request and is not write-derivable from the capabilities the requester presented must be byte-identical afterwards (share data and header always; lease area too unless add-lease was asked for) and the response must be 4xx/5xx. Every response obtained with read-only authority (t=json, t=info, HTML listing, t=uri, t=readonly-uri, rename-form, manifests, deep-stats/size, check results, error pages) is searched for the base32 write key of every mutable object the harness created (excluding secrets the request itself supplied). A request answered with an error must moreover leave EVERY pre-existing mutable object unchanged, including a writeable destination named in to_dir= (no half-performed moves). Before the read-only requests the harness walks the tree with the write cap through the same client and keeps the resulting child nodes alive (as a running manifest/deep-check would), so a node cache that confuses authorities is exposed. Each modifying form is also issued with a write cap on a twin directory/file and must change the grid there, so the workload is not vacuous; a form is judged for its status only after it has been shown effective.",
     "note": "Trusts vf.web, the in-process grid, the harness's own model of which capabilities are write-derivable from which, and the 10-line mutable-container parser (header 100 bytes, 4 lease slots, data at 468). New unlinked objects left behind by a refused request are reported as observations, not violations (creating unlinked objects needs no authority).",
 }
 LEVEL = "exploration"
@@ -133,10 +133,11 @@ def run(ck):
             with ck.watchdog(240, "case %d" % i):
                 _one_case(ck, i)
         i += 1
-    ck.require_monitor("protected-slots-unchanged", "refused-status", "write-secret-scan")
+    ck.require_monitor("protected-slots-unchanged", "refused-status", "refused-request-changes-nothing", "write-secret-scan")
     ck.require_reach("form-effective-with-writecap", "refused-by-readonly-dircap", "refused-crossing-readonly-entry",
                      "refused-by-readonly-filecap", "refused-by-verifycap", "refused-by-immutable-dircap",
-                     "refused-relink-into-readonly", "writecap-visible-through-writecap", "manifest-through-readcap",
+                     "refused-relink-into-readonly", "refused-by-readcap-after-writecap-walk",
+                     "readcap-json-while-writecap-walk-holds-the-node", "writecap-visible-through-writecap", "manifest-through-readcap",
                      "same-object-rw-and-ro", "mdmf-directory", "sdmf-directory")
     ck.exhaustive = False
 
@@ -271,6 +272,32 @@ class Case(object):
             ch = rng.choice([self.mf_ro, self.chk_shared, self.own])
             self.link(p, "x%d" % rng.randrange(1000), ch, rng.choice(["rw", "ro"]))
 
+    # ---- a gateway that has just walked the tree with the WRITE cap and still holds the child nodes
+    def warm_walk(self):
+        """List every directory reachable read-write from the root through the client's own API (exactly what a
+        t=stream-manifest / deep-check / in-flight listing does) and keep the resulting child node objects alive for the
+        rest of the case: read-only requests issued afterwards must not be served by those writeable nodes."""
+        from allmydata.interfaces import IDirectoryNode
+        self.held = []
+        seen = set()
+        todo = [self.c.create_node_from_uri(self.root.cap)]
+        while todo:
+            dn = todo.pop()
+            if dn.get_uri() in seen:
+                continue
+            seen.add(dn.get_uri())
+            kids = self.W(dn.list())
+            self.held.append((dn, kids))
+            for name, (child, md) in kids.items():
+                if IDirectoryNode.providedBy(child) and child.is_mutable() and not child.is_readonly():
+                    todo.append(child)
+        self.held_writeable = set()
+        for dn, kids in self.held:
+            for name, (child, md) in kids.items():
+                if child.is_mutable() and not child.is_readonly():
+                    self.held_writeable.add(child.get_readonly_uri())
+        self._snap = None
+
     # ---- scenarios
     def scenarios(self):
         q, N = self.web.q, self.N
@@ -283,6 +310,11 @@ class Case(object):
         S.append(("rw-root/ro-entry/sub", "refused-crossing-readonly-entry", "/uri/%s/ro-b/%s" % (q(root.cap), q(N["sub"])), D, [root.cap]))
         S.append(("ro-dircap/alias-of-writeable", "refused-by-readonly-dircap", "/uri/%s/alias-a" % q(B.ro), A, [B.ro]))
         S.append(("rw-root/ro-entry/alias-of-writeable", "refused-crossing-readonly-entry", "/uri/%s/ro-b/alias-a" % q(root.cap), A, [root.cap]))
+        # objects the warm walk reached read-write, now named by their own read cap / through the parent's read cap
+        subA = A.children[N["sub"]][0]
+        S.append(("child-readcap-after-writecap-walk", "refused-by-readcap-after-writecap-walk", "/uri/" + q(A.ro), A, [A.ro]))
+        S.append(("parent-readcap/child-after-writecap-walk", "refused-by-readcap-after-writecap-walk",
+                  "/uri/%s/%s" % (q(A.ro), q(N["sub"])), subA, [A.ro]))
         S.append(("verify-dircap", "refused-by-verifycap", "/uri/" + q(B.verify), B, [B.verify]))
         S.append(("immutable-dircap", "refused-by-immutable-dircap", "/uri/" + q(self.imm.cap), self.imm, [self.imm.cap]))
         S.append(("rw-root/immutable-entry", "refused-by-immutable-dircap", "/uri/%s/imm" % q(root.cap), self.imm, [root.cap]))
@@ -298,6 +330,10 @@ class Case(object):
         F.append(("verify-filecap", "refused-by-verifycap", "/uri/" + q(self.mf_ro.verify), self.mf_ro, [self.mf_ro.verify], None))
         F.append(("rw-root/ro-file-entry", "refused-by-readonly-filecap", "/uri/%s/rofile" % q(root.cap), self.mf_ro, [root.cap], False))
         F.append(("rw-root/ro-entry/file", "refused-crossing-readonly-entry", "/uri/%s/ro-b/%s" % (q(root.cap), q(N["mfile"])), mfB, [root.cap], True))
+        mfA = self.A.children[N["mfile"]][0]
+        F.append(("child-readcap-after-writecap-walk", "refused-by-readcap-after-writecap-walk", "/uri/" + q(mfA.ro), mfA, [mfA.ro], None))
+        F.append(("parent-readcap/file-after-writecap-walk", "refused-by-readcap-after-writecap-walk",
+                  "/uri/%s/%s" % (q(self.A.ro), q(N["mfile"])), mfA, [self.A.ro], True))
         F.append(("ro-dircap/file", "refused-by-readonly-dircap", "/uri/%s/%s" % (q(B.ro), q(N["mfile"])), mfB, [B.ro], True))
         return F
 
@@ -340,6 +376,13 @@ class Case(object):
         add("POST-relink-same-dir", "POST", base + "?t=relink&from_name=%s&to_name=%s" % (m, new))
         add("POST-relink-out-to-writeable", "POST", base + "?t=relink&from_name=%s&to_dir=%s&to_name=moved" % (f, q(sandbox_cap)),
             [sandbox_cap])
+        add("POST-relink-dir-out-to-writeable", "POST", base + "?t=relink&from_name=%s&to_dir=%s" % (sub, q(sandbox_cap)), [sandbox_cap])
+        add("POST-relink-mutable-out-to-writeable-path", "POST", base + "?t=relink&replace=true&from_name=%s&to_dir=%s&to_name=%s" % (
+            m, q(sandbox_cap + b"/d"), new), [sandbox_cap])
+        add("POST-relink-out-replace-only-files", "POST", base + "?t=relink&replace=only-files&from_name=%s&to_dir=%s&to_name=d2" % (
+            q(N["lit"]), q(sandbox_cap)), [sandbox_cap])
+        add("POST-relink-form-out-to-writeable", "POST", base, [sandbox_cap],
+            form={"t": "relink", "from_name": N["file"], "to_dir": sandbox_cap.decode("ascii"), "to_name": "viaform"})
         add("POST-set_children", "POST", base + "?t=set_children", [own], body=json.dumps({
             N["new"]: ["filenode", {"ro_uri": lit.decode("ascii")}],
             "own": ["filenode", {"rw_uri": own.decode("ascii"), "ro_uri": self.own.ro.decode("ascii")}]}).encode("utf-8"))
@@ -414,7 +457,7 @@ class Case(object):
             really = now is None or now[1] != content
             if key[1] in protected:
                 (changed_protected if really else touched).append(key)
-            elif key[1] in known:
+            elif key[1] in known and (really or not addlease):
                 changed_other.append(key)
         old_sis = set(k[1] for k in before)
         new_slots = set(k[1] for k in after if after[k][1] is not None and k[1] not in old_sis)
@@ -446,8 +489,18 @@ class Case(object):
                 ck.hit(cls)
         elif judge_status:
             ck.skip("status-not-judged-form-not-shown-effective")
-        if changed_other and isinstance(st, int) and st >= 400:
-            ck.observe("refused-request-changed-an-object-the-requester-may-write")
+        # "refused and changes nothing on the grid": a request whose target the presented capabilities cannot write and
+        # that is answered with an error must leave EVERY mutable object alone, also a writeable destination it named
+        # (to_dir=) or a writeable directory on its path - a half-performed operation is a modification made through
+        # the read-only capability.
+        if judge_status:
+            ck.mon("refused-request-changes-nothing")
+            if changed_other and not (isinstance(st, int) and st < 400):
+                V("refused-request-changed-grid", "answered %s, yet %d share file(s) of mutable object(s) %s (writeable by other "
+                  "capabilities named in the request) were changed: the operation was half performed" % (
+                      st, len(changed_other), sorted(set(k[1] for k in changed_other))[:3]))
+        elif changed_other and isinstance(st, int) and st >= 400:
+            ck.observe("maintenance-request-with-error-status-changed-a-writeable-object")
         if new_slots:
             ck.observe("refused-request-left-new-unlinked-mutable-object")
         self.scan(form, scen, cls, method, url, kw, st, hd, body, derivable)
@@ -485,7 +538,7 @@ class Case(object):
         N = self.N
         mark = len(self.tree.objs)
         kids = self.std_children()
-        S2 = self.mk_dir({})
+        S2 = self.mk_dir({"d": (self.mk_dir({}), "rw")})
         for form in form_names:
             S = self.mk_dir(kids, fmt=self.rng.choice(["SDMF", "MDMF"]))
             spec = self.dir_forms("/uri/" + self.web.q(S.cap), S2.cap)[form]
@@ -494,6 +547,8 @@ class Case(object):
             self.g.sched.settle()
             after = snapshot(self.g)
             watch = set([S.si] + [ch.si for ch, _ in S.children.values() if ch.mutable])
+            if "relink" in form and "out" in form:
+                watch = {S2.si, S2.children["d"][0].si}          # a move is shown effective by what arrives at the destination
             changed = any(k[1] in watch and (k not in after or after[k][1] != v[1]) for k, v in before.items() if v[1] is not None)
             if isinstance(st, int) and st < 400 and changed:
                 self.effective.add(form)
@@ -564,6 +619,8 @@ class Case(object):
                 g.sched.run(until=lambda: False, max_steps=5000, horizon=30.0)     # let the background walk finish
             st, hd, body = web.http(g, self.stub, method, url)
             self.scan(name, scen, cls, method, url, {}, st, hd, body, derivable)
+            if name == "GET-json" and st == 200 and target.mutable and target.ro in getattr(self, "held_writeable", ()):
+                ck.hit("readcap-json-while-writecap-walk-holds-the-node")
             if name == "GET-operations-start-manifest-json" and st == 200 and b'"finished": true' in body:
                 ck.hit("manifest-through-readcap")
             ck.case("read/" + name, key=(scen, name, target.fmt), nontrivial=isinstance(st, int) and st < 400,
@@ -595,8 +652,9 @@ class Case(object):
         ck, rng, web, g, q, N = self.ck, self.rng, self.web, self.g, self.web.q, self.N
         thorough = ck.tier == "thorough"
         self._snap = None
-        scratch = self.mk_dir({})
+        scratch = self.mk_dir({"d": (self.mk_dir({}), "rw")})
         self.tree.pin(self.c)
+        self.warm_walk()
         all_dir_forms = sorted(self.dir_forms("/uri/x", scratch.cap))
         all_file_forms = sorted(self.file_forms("/uri/x", 0, True))
         # 1. every form is shown effective (or not) with a write cap on a twin
@@ -627,7 +685,7 @@ class Case(object):
                 st, hd, body, _ = self.request(form, spec, scen, cls, caps, target=target)
                 ck.case("modify/" + cls, key=(scen, form, target.fmt), nontrivial=form in self.effective,
                         sample=dict(scenario=scen, form=form, status=st, body=body[:80]))
-            if thorough or (si_ + self.ci) % 2 == 0:
+            if thorough or (si_ + self.ci) % 2 == 0 or "after-writecap-walk" in scen:
                 self.reads(scen, cls, base, target, caps, True)
         # 3. relink INTO a read-only directory from a writeable one
         src = self.mk_dir({N["file"]: (self.chk_shared, "rw")})
@@ -675,5 +733,10 @@ class Case(object):
 #   c41-readonly-put-check-inverted                   PUT on a read-only mutable file says 200 -> modifying-request-not-refused
 # NOT property breaks (second layer keeps the property true: MutableFileVersion asserts it is writeable, no write key / write
 # enabler exists for a node made from a read cap); the check correctly stays silent:
-#   c41-dirnode-delete-unchecked, c41-dirnode-move-unchecked, c41-dirnode-set_node-unchecked,
-#   c41-filenode-put-readonly-check-removed
+#   c41-dirnode-delete-unchecked, c41-dirnode-set_node-unchecked, c41-filenode-put-readonly-check-removed
+# Caught since the every-mutable-slot rule for refused requests and the write-cap-walk ordering were added:
+#   c41-dirnode-move-unchecked, seeded/C41-1   relink from a read-only source into a writeable to_dir is answered 500 but the
+#                                              destination gained the link                   -> refused-request-changed-grid
+#   seeded/C41-2                               node cache keyed by the read cap: after a write-cap walk whose child nodes are
+#                                              still alive, read-cap requests are served by writeable nodes
+#                                              -> modifying-request-not-refused, readonly-authority-modified-grid, write-cap-in-readonly-response
